@@ -45,7 +45,9 @@ def dec_ok(text):
     digits = text.replace('.', '')
     if not digits: return False
     if text.endswith('.') or text.startswith('.'): return None    # outside the fragment the oracle speaks about
-    if len(digits.lstrip('0')) > 28: return None
+    if len(digits.lstrip('0')) > 28:
+        # 29 digits: an integer up to 2^96 - 1 is exactly representable (scale 0); anything else is rounded or rejected by rust_decimal - outside the fragment
+        if '.' in text or int(digits) > 2**96 - 1: return None
     if '.' in text and len(text.split('.')[1]) > 28: return None
     return True
 
